@@ -36,6 +36,8 @@ def gen_tree(rng, depth, maxdepth, ids, pool, width):
         plot = None
         if rng.random() < 0.4:
             plot = rng.randrange(1, 6) if rng.random() < 0.5 else 100 + ids[0]
+        if plot is not None and rng.random() < 0.04:
+            plot = BAD_FIGURE
         if plot is None and rng.random() < 0.15:
             # a result with nothing to show at this verbosity (no table, no figure): its anchor and description are
             # still on the page
@@ -145,12 +147,17 @@ def stubs():
     return _STUBS
 
 
+BAD_FIGURE = 666      # a figure whose drawing fails: the writing must fail too, not leave a page pointing to nothing
+
+
 class StubMplPlot:
     '''stands for matplotlib: save() writes the figure file (module level: worker subprocesses pickle it)'''
     def __init__(self, data, **_kw):
         self.data = data
 
     def save(self, path):
+        if int(self.data.subplots[0].curves[0].values[0]) == BAD_FIGURE:
+            raise RuntimeError('this figure cannot be drawn')
         with open(path, 'wb') as fobj:
             fobj.write(b'PNG')
 
@@ -201,8 +208,10 @@ def run_impl(case, run):
                 plot_ids[str(fpr)] = int(mpl.data.subplots[0].curves[0].values[0])
             if case.get('twice'):
                 # what is read below is the second writing; the first one goes to another directory
-                fmt.write(os.path.join(base, 'first', 'report'))
-                shutil.rmtree(os.path.join(base, 'first'), ignore_errors=True)
+                try:
+                    fmt.write(os.path.join(base, 'first', 'report'))
+                finally:
+                    shutil.rmtree(os.path.join(base, 'first'), ignore_errors=True)
             fmt.write(root)
             out['error'] = None
         except Exception as exc:  # pylint: disable=broad-except
@@ -243,7 +252,13 @@ def run_impl(case, run):
     return out
 
 
+def has_bad_figure(tree):
+    return any((('res' in it and it['res'][1] == BAD_FIGURE) or ('sec' in it and has_bad_figure(it['sec']))) for it in tree['items'])
+
+
 def run_model(case, driver, run):
+    if has_bad_figure(case):
+        return None               # the model has no failing figures: oracle only
     return driver.ask('report', {k: v for k, v in case.items() if k not in ('other', 'twice', 'workers')})
 
 
@@ -317,6 +332,9 @@ def oracle(case, impl, run):
     if impl['error'] is not None:
         if dup_siblings:
             return fails   # an explicit rejection of equally titled siblings is acceptable
+        if has_bad_figure(case):
+            run.count('reject:figure')
+            return fails   # a figure that cannot be drawn: the writing fails loudly
         fails.append(('pages_bijective', f"valid tree rejected: {impl['error']}: {impl.get('error_msg')}"))
         return fails
     run.count('written')
